@@ -46,7 +46,7 @@ def main():
         if rc != 0:
             # last resort: the tree the patch was written against
             base = os.environ.get("SEED_BASE", "6cdb13b")
-            run(["git", "-C", wt, "checkout", "-q", "--detach", base])
+            run(["git", "-C", wt, "checkout", "-q", "-f", "--detach", base])
             run(["git", "-C", wt, "checkout", "-q", "--", "."])
             rc, out = run(["git", "-C", wt, "apply", patch])
             meta["applied_with"] = "applied to the older tree %s it was written against (conflicts with a later fix commit)" % base
